@@ -171,6 +171,10 @@ impl DailyLogsUpdate {
             ",
         )?;
 
+        let mut delete_emptied_stmt = conn.prepare_cached(
+            "DELETE FROM _daily_log WHERE room_id = ? AND entity = ? AND date = ?",
+        )?;
+
         // read the whole window before the loop: the loop updates the table the SELECT scans, and a SELECT
         // that is stepped while its table changes sees those changes (rows returned twice, rows skipped)
         type LogRow = (Uid, String, i64, bool, Option<Vec<u8>>, Option<Vec<u8>>);
@@ -200,7 +204,9 @@ impl DailyLogsUpdate {
                         update_history_stmt.execute((&hash, &room, &entity, date))?;
                         previous_history = Some(hash);
                     } else {
-                        previous_history = history_hash;
+                        // every earlier day of the window has been emptied: the chain starts here
+                        update_history_stmt.execute((&daily_hash, &room, &entity, date))?;
+                        previous_history = daily_hash.clone();
                     }
                     previous_hash = daily_hash;
                 } else {
@@ -230,6 +236,20 @@ impl DailyLogsUpdate {
                     Some(hash.as_bytes().to_vec())
                 };
 
+                if entry_number == 0 {
+                    // nothing is stored for that day any more: no row, as on a peer that never stored anything
+                    // that day; the chain goes on from the day before, or starts at the next day of the group
+                    delete_emptied_stmt.execute((&room, &entity, date))?;
+                    self.add_log(DailyLog { room_id: room, entity: entity.clone(), date, ..Default::default() });
+                    if !(previous_room.eq(&room) && previous_entity.eq(&entity)) {
+                        previous_hash = None;
+                        previous_history = None;
+                    }
+                    previous_room = room;
+                    previous_entity = entity;
+                    continue;
+                }
+
                 let history_hash = if previous_room.eq(&room) && previous_entity.eq(&entity) {
                     if let Some(previous) = &previous_history {
                         let mut hasher = blake3::Hasher::new();
@@ -240,7 +260,7 @@ impl DailyLogsUpdate {
                         let hash = hasher.finalize().as_bytes().to_vec();
                         Some(hash)
                     } else {
-                        None
+                        daily_hash.clone()
                     }
                 } else {
                     //this is the first room date
